@@ -20,12 +20,24 @@ def rule_n2(ctx, R, rid="N2"):
                 "is reachable after an index update in the same handler")
     P = ctx.P
     nm = P.cls(NS_INIT, "NamespaceManager")
+    from ..inline import inlined_view
+    SELF_UPD = ("apply_namespace", "drop_namespace", "_update_new_namespace", "remove", "add")
+    # a handler is read with its private helpers spliced in (the anchors the classification names stay calls); a private helper
+    # that is only ever called from methods of this class has no life of its own: it is decided where it is called
+    views = {name: inlined_view(P, f, keep=set(SELF_UPD)) for name, f in nm.methods.items()}
+    called_privately = {h for v in views.values() for h in getattr(v, "inlined_helpers", ())}
+    called_privately = {h.split(".")[-1] for h in called_privately}
+    elsewhere = {c.func.attr for m in P.modules.values() for fn in m.all_funcs() if fn.cls is not nm
+                 for c in walk_local(fn.node) if isinstance(c, ast.Call) and isinstance(c.func, ast.Attribute)}
     handlers = []
-    for name, f in sorted(nm.methods.items()):
+    for name, f0 in sorted(nm.methods.items()):
+        f = views[name]
         sets_ignore = any(isinstance(n, ast.Assign) and any(norm(t) == "self.ignore_ns_change" for t in n.targets)
                           for n in walk_local(f.node))
         if sets_ignore or name in ("__init__", "lookup", "register_all_listeners", "deregister_all_listeners",
                                    "get_parent", "is_compliant", "_update_new_namespace"):
+            continue
+        if name.startswith("_") and not name.startswith("__") and name in called_privately and name not in elsewhere:
             continue
         handlers.append(f)
     for must in ("add", "remove", "dictionary_set", "dictionary_delete", "dictionary_pop"):
@@ -33,7 +45,6 @@ def rule_n2(ctx, R, rid="N2"):
             raise AnalysisError("anchor vanished: NamespaceManager.%s" % must)
 
     UPD_METHODS = ("update", "remove")
-    SELF_UPD = ("apply_namespace", "drop_namespace", "_update_new_namespace", "remove", "add")
 
     def classify(node):
         """(updates, refusals) in evaluation order for one CFG node"""
